@@ -14,14 +14,19 @@ ASSUMPTIONS = [
     "a DQUOTE inside a parameter value is replaced by an apostrophe on output (documented): such values are only required not to change the structure",
     "known findings excluded by their classifiers: C08-K1 (parameter values with backslash / %XX codes), C05-K1 (non-TEXT values with backslash-escapes are decoded by parts())",
 ]
+_RT_WHAT = "from_parts -> parts: refused (raw LF) / rejected (ValueError) / exactly the same name, one parameter, value text decoding to the value; parts() is a function of the line text alone (editing the returned parameters does not change a later split)"
+_INJ_WHAT = "component read back has exactly VCALENDAR > VEVENT > {UID, X-NAME[X-P]} or the X-NAME line alone is dropped"
 CONDITIONS = (
-    shards("roundtrip", "c05.py", "h_roundtrip", {"kind": [0, 1], "p0": list(range(16))}, timeout=300, thorough_timeout=3000,
-           what="from_parts -> parts: refused (raw LF) / rejected (ValueError) / exactly the same name, one parameter, value text decoding to the value",
-           bound="TEXT and URI values; parameter value <= 1 char (pinned per shard), value <= 2 chars (thorough 3), 16-char alphabet")
-    + shards("roundtrip", "c05.py", "h_roundtrip", {"kind": [2, 3], "p0": list(range(16))}, timeout=300, tiers=("quick",),
-           what="from_parts -> parts: refused (raw LF) / rejected (ValueError) / exactly the same name, one parameter, value text decoding to the value",
-           bound="CAL-ADDRESS and inline values; parameter value <= 1 char (pinned per shard), value <= 2 chars, 16-char alphabet")
-    + shards("inject", "c05.py", "h_inject", {"kind": [0, 1], "pq": [0, 1, 2, 3, 4]}, timeout=300, thorough_timeout=3000,
-             what="component read back has exactly VCALENDAR > VEVENT > {UID, X-NAME[X-P]} or the X-NAME line alone is dropped",
-             bound="value <= 3 (thorough 4) chars over {\" ; : = , a backslash}; parameter value pinned per shard")
+    shards("roundtrip", "c05.py", "h_roundtrip", {"kind": [0, 1, 2, 3], "p0": list(range(16))}, timeout=300, tiers=("quick",), what=_RT_WHAT,
+           bound="TEXT, URI, CAL-ADDRESS and inline values; parameter value <= 1 char (pinned per shard), value <= 2 chars, 16-char alphabet")
+    + shards("roundtrip", "c05.py", "h_roundtrip", {"kind": [0], "p0": list(range(16))}, timeout=3000, tiers=("thorough",), what=_RT_WHAT,
+             bound="TEXT values; parameter value <= 1 char (pinned per shard), value <= 3 chars, 16-char alphabet")
+    + shards("roundtrip", "c05.py", "h_roundtrip", {"kind": [1], "p0": [0, 1, 2, 3]}, timeout=3000, tiers=("thorough",), what=_RT_WHAT,
+             bound="URI values; parameter value backslash / ; / : / , (pinned per shard), value <= 3 chars, 16-char alphabet")
+    + shards("inject", "c05.py", "h_inject", {"kind": [0, 1], "pq": [0, 1, 2, 3, 4]}, timeout=300, tiers=("quick",), what=_INJ_WHAT,
+             bound="value <= 3 chars over {\" ; : = , a backslash}; parameter value pinned per shard")
+    + shards("inject", "c05.py", "h_inject", {"kind": [0], "pq": [0, 1, 2, 3, 4]}, timeout=3000, tiers=("thorough",), what=_INJ_WHAT,
+             bound="TEXT value <= 4 chars over {\" ; : = , a backslash}; parameter value pinned per shard")
+    + shards("inject", "c05.py", "h_inject", {"kind": [1], "pq": [0, 4]}, timeout=3000, tiers=("thorough",), what=_INJ_WHAT,
+             bound="URI value <= 4 chars over {\" ; : = , a backslash}; parameter value DQUOTE / ;b=c")
 )
